@@ -12,6 +12,7 @@ import (
 	"runtime"
 	"sort"
 	"strings"
+	"sync"
 	"time"
 
 	"github.com/fatih/color"
@@ -93,6 +94,19 @@ type LinterOptions struct {
 	// More options will come here
 }
 
+// lockedWriter serializes writes to the underlying writer. Logs are written by multiple goroutines while linting
+// multiple files and a writer given by user is not always safe for concurrent use.
+type lockedWriter struct {
+	mu sync.Mutex
+	w  io.Writer
+}
+
+func (w *lockedWriter) Write(b []byte) (int, error) {
+	w.mu.Lock()
+	defer w.mu.Unlock()
+	return w.w.Write(b)
+}
+
 // Linter is struct to lint workflow files.
 type Linter struct {
 	projects       *Projects
@@ -136,7 +150,7 @@ func NewLinter(out io.Writer, opts *LinterOptions) (*Linter, error) {
 
 	var lout io.Writer = io.Discard
 	if opts.LogWriter != nil {
-		lout = opts.LogWriter
+		lout = &lockedWriter{w: opts.LogWriter}
 	}
 
 	var cfg *Config
@@ -202,8 +216,8 @@ func (l *Linter) log(args ...interface{}) {
 	if l.logLevel < LogLevelVerbose {
 		return
 	}
-	fmt.Fprint(l.logOut, "verbose: ")
-	fmt.Fprintln(l.logOut, args...)
+	// Write the line at once since this method is called by multiple goroutines
+	fmt.Fprintln(l.logOut, append([]interface{}{"verbose:"}, args...)...)
 }
 
 func (l *Linter) debug(format string, args ...interface{}) {
